@@ -206,6 +206,39 @@ func checkCase(c Case) error {
 		}
 	}
 
+	// (e) the Go type which the LIBRARY derives from the signature (the one
+	// proxies decode replies into, bus/proxy.go): decoding the documented bytes
+	// into it recovers the value
+	// (not for signatures with m: the library represents a dynamic value there
+	// by *interface{}, which is not what the codec under test is given anywhere)
+	if ty.Contains(ref.KValue) {
+		return finish(c, ty)
+	}
+	lt, p := func() (t reflect.Type, p interface{}) {
+		defer func() { p = recover() }()
+		return st.Type(), nil
+	}()
+	if p != nil {
+		return vt.Violationf(classFor(ty, "library-type-panic"), "Parse(%q).Type() panicked: %v", c.Sig, p)
+	}
+	lptr := reflect.New(lt)
+	err, p = safely(func() error {
+		return encoding.NewDecoder(encoding.DefaultCap(), bytes.NewReader(refBytes)).Decode(lptr.Interface())
+	})
+	if p != nil || err != nil {
+		return vt.Violationf(classFor(ty, "library-type-decode"), "Decode into Parse(%q).Type() failed: %v %v", c.Sig, err, p)
+	}
+	var lgot interface{}
+	err, p = safely(func() (e error) { lgot, e = bridge.FromGo(ty, lptr.Elem()); return })
+	if p != nil || err != nil || !ref.Equal(lgot, v) {
+		return vt.Violationf(classFor(ty, "library-type-decode"), "Decode into Parse(%q).Type() = %v gave %s (%v %v), want %s", c.Sig, lt, ref.Render(lgot), err, p, c.Desc)
+	}
+
+	return finish(c, ty)
+}
+
+// finish records the statistics of a case that held.
+func finish(c Case, ty *ref.Type) error {
 	nontrivial := ty.Depth() >= 2 || ty.Contains(ref.KInt8, ref.KUint8, ref.KInt16, ref.KUint16, ref.KMap, ref.KValue)
 	labels := []string{fmt.Sprintf("depth=%d", ty.Depth())}
 	for _, k := range []struct {
